@@ -30,10 +30,25 @@ var (
 	xEnts = []string{"olt-1/0/3:100 a.b", "3:100 a.b", "olt-1/0"} // structured ids: see C12 subIDs (no ( ) , in ids)
 )
 
+// macOf / ipOf: index -1 means "key not set" (nil MAC / nil IP / empty NTE id).
+func macOf(m int) net.HardwareAddr {
+	if m < 0 {
+		return nil
+	}
+	return xMACs[m]
+}
+func ipOf(i int) net.IP {
+	if i < 0 {
+		return nil
+	}
+	return xIPs[i]
+}
+
 // adapter: one real indexed store.
 type adapter interface {
 	hasMAC() bool
 	canUpdateMAC() bool
+	canClear() bool // records may be created with / updated to an UNSET key (index -1)
 	create(e string, mac, ip int) error
 	update(e string, mac, ip int) error // replace the record of e by one with these keys
 	remove(e string) error
@@ -111,6 +126,20 @@ func (s *idxSys) Ops() []string {
 					ops = append(ops, fmt.Sprintf("Create(%s,%d,%d)", e, m, i))
 				}
 			}
+			if s.a.canClear() { // records created with one key unset
+				for i := range xIPs {
+					if _, u := ips[i]; !u {
+						ops = append(ops, fmt.Sprintf("Create(%s,-1,%d)", e, i))
+						break
+					}
+				}
+				for m := 0; m < nm; m++ {
+					if _, u := macs[m]; !u {
+						ops = append(ops, fmt.Sprintf("Create(%s,%d,-1)", e, m))
+						break
+					}
+				}
+			}
 			continue
 		}
 		ops = append(ops, "Delete("+e+")")
@@ -127,6 +156,14 @@ func (s *idxSys) Ops() []string {
 			}
 		}
 		ops = append(ops, fmt.Sprintf("Update(%s,%d,%d)", e, cm, ci)) // unchanged keys
+		if s.a.canClear() { // update that CLEARS a key
+			if ci >= 0 {
+				ops = append(ops, fmt.Sprintf("Update(%s,%d,-1)", e, cm))
+			}
+			if cm >= 0 {
+				ops = append(ops, fmt.Sprintf("Update(%s,-1,%d)", e, ci))
+			}
+		}
 	}
 	return ops
 }
@@ -224,11 +261,12 @@ type stSessions struct{ s *state.Store }
 
 func (a *stSessions) hasMAC() bool       { return true }
 func (a *stSessions) canUpdateMAC() bool { return true }
+func (a *stSessions) canClear() bool     { return true }
 func (a *stSessions) create(e string, m, i int) error {
-	return a.s.CreateSession(&state.Session{ID: e, MAC: xMACs[m], IPv4: xIPs[i]})
+	return a.s.CreateSession(&state.Session{ID: e, MAC: macOf(m), IPv4: ipOf(i)})
 }
 func (a *stSessions) update(e string, m, i int) error {
-	return a.s.UpdateSession(&state.Session{ID: e, MAC: xMACs[m], IPv4: xIPs[i]})
+	return a.s.UpdateSession(&state.Session{ID: e, MAC: macOf(m), IPv4: ipOf(i)})
 }
 func (a *stSessions) remove(e string) error { return a.s.DeleteSession(e) }
 func (a *stSessions) primary(e string) (int, int, bool) {
@@ -268,11 +306,12 @@ type stLeases struct{ s *state.Store }
 
 func (a *stLeases) hasMAC() bool       { return true }
 func (a *stLeases) canUpdateMAC() bool { return true }
+func (a *stLeases) canClear() bool     { return true }
 func (a *stLeases) create(e string, m, i int) error {
-	return a.s.CreateLease(&state.Lease{ID: e, MAC: xMACs[m], IPv4: xIPs[i]})
+	return a.s.CreateLease(&state.Lease{ID: e, MAC: macOf(m), IPv4: ipOf(i)})
 }
 func (a *stLeases) update(e string, m, i int) error {
-	return a.s.UpdateLease(&state.Lease{ID: e, MAC: xMACs[m], IPv4: xIPs[i]})
+	return a.s.UpdateLease(&state.Lease{ID: e, MAC: macOf(m), IPv4: ipOf(i)})
 }
 func (a *stLeases) remove(e string) error { return a.s.DeleteLease(e) }
 func (a *stLeases) primary(e string) (int, int, bool) {
@@ -308,15 +347,21 @@ func (a *stLeases) dump() string { return (&stSessions{a.s}).dump() }
 
 type stSubs struct{ s *state.Store }
 
-func nteName(i int) string { return fmt.Sprintf("nte%d", i) }
+func nteName(i int) string {
+	if i < 0 {
+		return ""
+	}
+	return fmt.Sprintf("nte%d", i)
+}
 
 func (a *stSubs) hasMAC() bool       { return true }
 func (a *stSubs) canUpdateMAC() bool { return true }
+func (a *stSubs) canClear() bool     { return true }
 func (a *stSubs) create(e string, m, i int) error {
-	return a.s.CreateSubscriber(&state.Subscriber{ID: e, MAC: xMACs[m], NTEID: nteName(i)})
+	return a.s.CreateSubscriber(&state.Subscriber{ID: e, MAC: macOf(m), NTEID: nteName(i)})
 }
 func (a *stSubs) update(e string, m, i int) error {
-	return a.s.UpdateSubscriber(&state.Subscriber{ID: e, MAC: xMACs[m], NTEID: nteName(i)})
+	return a.s.UpdateSubscriber(&state.Subscriber{ID: e, MAC: macOf(m), NTEID: nteName(i)})
 }
 func (a *stSubs) remove(e string) error { return a.s.DeleteSubscriber(e) }
 func (a *stSubs) primary(e string) (int, int, bool) {
@@ -376,7 +421,8 @@ func newSubMgr() *subMgr {
 }
 
 func (a *subMgr) hasMAC() bool       { return true }
-func (a *subMgr) canUpdateMAC() bool { return false } // a session's MAC cannot be changed through the API
+func (a *subMgr) canUpdateMAC() bool { return false }
+func (a *subMgr) canClear() bool     { return false } // a session's MAC cannot be changed through the API
 func (a *subMgr) ent(id string) string {
 	for e, x := range a.ids {
 		if x == id {
@@ -450,6 +496,7 @@ type memStore struct {
 
 func (a *memStore) hasMAC() bool       { return false }
 func (a *memStore) canUpdateMAC() bool { return false }
+func (a *memStore) canClear() bool     { return false }
 func (a *memStore) rec(e string, i int) allocator.AllocationRecord {
 	return allocator.AllocationRecord{SubscriberID: e, PoolID: "p", Prefix: &net.IPNet{IP: xIPs[i], Mask: net.CIDRMask(32, 32)}}
 }
